@@ -433,6 +433,26 @@ func (l *queue) Advance() error {
 	return nil
 }
 
+// TrimExhaustedHead drops the head segment when every block in it has been
+// advanced past and it is not the only segment. Unlike Advance it never moves
+// the head position, so a block appended after the caller saw io.EOF from
+// Current cannot be skipped.
+func (l *queue) TrimExhaustedHead() error {
+	l.mu.Lock()
+	defer l.mu.Unlock()
+	if l.head == nil {
+		return ErrNotOpen
+	}
+
+	l.head.mu.RLock()
+	exhausted := l.head.pos == l.head.size-footerSize
+	l.head.mu.RUnlock()
+	if exhausted {
+		return l.trimHead()
+	}
+	return nil
+}
+
 func (l *queue) trimHead() error {
 	if len(l.segments) > 1 {
 		l.segments = l.segments[1:]
